@@ -10,6 +10,7 @@ G_UNITS = {
                   "HelperAttributeForCompareOp::verify", "HelperAttributesForCompareOp::verify", "bad_attr_1"],
     "cmp_select": ["build_partial_eq_expr", "build_eq_expr", "build_partial_ord_expr", "build_ord_expr", "build_hash_expr"],
     "entry": ["DeriveEntry::apply_dump"],
+    "kinds": ["HelperAttributeKinds::is_match_cmp_attr", "HelperAttributesForCompareOp::from_attrs"],
     "cmp_bodies": ["build_partial_eq_body", "build_eq_body", "build_partial_ord_body", "build_ord_body", "build_hash_body", "build_compare_op"],
 }
 
@@ -85,6 +86,26 @@ def run(ctx):
     else:
         placements, entries = ["named", "tuple", "variant", "variant_tuple"], ["attr", "derive"]
     n, nontriv, samples = matrix(ctx, ex, placements, entries, combos)
+    # the same matrix under other trait lists: every single trait, and (thorough: all, quick: a seeded third of) the other subsets;
+    # the combination as the macro must see it is its restriction to the attributes owned by the listed traits (doc table)
+    import itertools
+    rng = random.Random(ctx.seed + 5)
+    subsets = [list(s) for k in range(1, 5) for s in itertools.combinations(R.CMP_TRAITS, k)]
+    sub_evals = 0
+    for sub in subsets:
+        if ctx.quick and len(sub) > 1 and rng.random() > 0.34:
+            continue
+        cs = combos if not ctx.quick else rng.sample(combos, 160)
+        seen = set()
+        rcs = []
+        for c in cs:
+            rc_ = R.restrict(c, sub)
+            k_ = R.combo_name(rc_)
+            if k_ not in seen:
+                seen.add(k_); rcs.append(rc_)
+        a_, b_, _ = matrix(ctx, ex, ["named"], ["attr", "derive"] if not ctx.quick else ["derive"], rcs, traits=sub)
+        sub_evals += a_; nontriv += b_
+    n += sub_evals
     n2 = misplaced(ctx, ex)
     ex.close()
     g = glayer.run_g(ctx, G_UNITS)
